@@ -80,6 +80,12 @@ LoadCase(opsets, kinds, nograph, perturb, feat) ==
           @@ (IF nograph THEN [expect |-> IF OpsetOK(opsets) THEN "ok" ELSE "error", errc |-> IF OpsetOK(opsets) THEN <<>> ELSE <<"UnsupportedOpset">>]
               ELSE LoadOutcome(opsets, kinds))]
 
+\* ---- graph fields the interpreter has no use for (sparse initializers: complete, without values, without indices, empty): whatever the
+\* loader does about them - ignore, refuse - it returns
+SparseKinds == {"complete", "no_values", "no_indices", "empty", "values_unnamed", "two_no_values"}
+SparseCase(kind, opsets) ==
+   [LoadCase(opsets, <<"good">>, FALSE, "none", <<"sparse_initializer_" \o kind>>) EXCEPT !.x = @ @@ [sparse |-> kind], !.x.expect = "nocrash", !.feat = <<"sparse_initializer_" \o kind, "nocrash">>]
+
 \* ---- unknown operator types at every position of a chain (also directly after a multi-output node)
 UnknownOps == {"Gelu", "relu", "RELU", "", "Identity", "LayerNormalization", "com.x.Custom", "Relu ", "MaxPool",
                \* names that are dangerous inside a format string, a path or a lookup key
@@ -164,7 +170,8 @@ Emit ==
              /\ \A m \in {2, 3, 5, 6, 9, 17} :
                    /\ P(LoadCase(<<Imp("", 13)>>, [i \in 1..m |-> st.k], FALSE, "none", <<"initializer_" \o st.k, "many_malformed", "all_of_" \o ToString(m)>>))
                    /\ P(LoadCase(<<Imp("", 13)>>, [i \in 1..(2 * m) |-> IF i % 2 = 0 THEN st.k ELSE "good"], FALSE, "none", <<"initializer_" \o st.k, "many_malformed", "every_other_of_" \o ToString(2 * m)>>))
-        [] st.fam = "zip" -> \A dcl \in ZipDeclared, method \in {0, 8} : P(ZipCase(dcl, method))
+        [] st.fam = "zip" -> /\ \A dcl \in ZipDeclared, method \in {0, 8} : P(ZipCase(dcl, method))
+                             /\ \A k \in SparseKinds : P(SparseCase(k, <<Imp("", 13)>>)) /\ P(SparseCase(k, <<Imp("", 12)>>))
         [] st.fam = "files" -> \A pert \in {"none", "truncate", "overwrite"} : P(FileCase(st.f, pert))
         [] st.fam = "random" -> P(RandomCase(st.seed))
         [] st.fam = "unknown" ->
